@@ -13,6 +13,7 @@ pub fn generate(profile: &str, seed: u64, cases: usize, out: &mut dyn Write) -> 
         "hpackint" => gen_int(&mut rng, cases, out),
         "hpackdec" => gen_dec(&mut rng, cases, out, false),
         "hpackdec-allsplits" => gen_dec(&mut rng, cases, out, true),
+        "hpackenc" => gen_enc(&mut rng, cases, out),
         _ => return false,
     }
     true
@@ -477,6 +478,80 @@ fn gen_dec(rng: &mut Rng, cases: usize, out: &mut dyn Write, all_splits: bool) {
             let last = bi + 1 == nblocks;
             let block = if last && rng.chance(1, 2) { gen_bad_block(rng, &mut sh) } else { gen_block(rng, &mut sh) };
             emit_block(rng, &block, out, false, &sizes);
+        }
+    }
+}
+
+// ------------------------------------------------------------------------------------ HPACK encoder
+
+const ENC_NAMES: &[&str] = &[
+    ":method", ":path", ":scheme", ":authority", ":status", ":protocol", "accept", "accept-encoding", "cookie",
+    "content-length", "content-type", "user-agent", "x-a", "x-b", "x-c", "x-d", "x-e", "x-f", "x-g", "x-h",
+    "x-custom-header-name-long-enough-to-matter", "te", "host", "set-cookie", "a", "etag", "date", "via", "vary",
+    "authorization", "location", "age", "x-k1", "x-k2", "x-k3", "x-k4", "x-k5", "x-k6", "x-k7", "x-k8", "x-k9",
+];
+
+fn enc_value(rng: &mut Rng, name: &str, maxsz: usize) -> Vec<u8> {
+    match name {
+        ":method" | ":status" | ":scheme" | ":path" | ":authority" | ":protocol" => value_for(rng, name),
+        _ => match rng.below(8) {
+            0 => vec![],
+            1 => b"gzip, deflate".to_vec(),
+            2 | 3 => rng.pick(&["v1", "v2", "v3", "v4", "trailers", "0", "42"]).as_bytes().to_vec(),
+            4 => {
+                // around the 3/4 rule: 4 * (32 + name + value) vs 3 * max
+                let target = (maxsz * 3 / 4).saturating_sub(32 + name.len());
+                let d = rng.below(5) as usize;
+                let n = (target + d).saturating_sub(2).min(6000);
+                vec![b'q'; n]
+            }
+            5 => (0..rng.below(60)).map(|_| *rng.pick(b"abcdefghij0123456789-_=; ")).collect(),
+            6 => (0..rng.below(200)).map(|_| 32 + rng.below(95) as u8).collect(),
+            _ => (0..rng.below(12)).map(|_| 128 + rng.below(128) as u8).collect(),
+        },
+    }
+}
+
+fn gen_enc(rng: &mut Rng, cases: usize, out: &mut dyn Write) {
+    let sizes = [0usize, 1, 31, 32, 33, 64, 100, 128, 200, 512, 1000, 4096, 4096, 4097, 5000, 65536];
+    for _ in 0..cases {
+        let init = *rng.pick(&[4096usize, 4096, 4096, 4096, 0, 100, 8192]);
+        let cap = *rng.pick(&[0usize, 0, 1, 8, 64]);
+        writeln!(out, "enc_new {} {}", init, cap).unwrap();
+        let mut cur_max = init.min(4096);
+        let nblocks = 1 + rng.below(14);
+        // a small per-history name pool makes chains and evictions frequent
+        let pool: Vec<&str> = (0..(2 + rng.below(10))).map(|_| *rng.pick(ENC_NAMES)).collect();
+        for _ in 0..nblocks {
+            for _ in 0..[0u64, 0, 0, 1, 1, 2, 3][rng.below(7) as usize] {
+                let n = *rng.pick(&sizes);
+                writeln!(out, "enc_max {}", n).unwrap();
+                cur_max = n.min(4096);
+            }
+            let nf = match rng.below(10) {
+                0 => 0,
+                1 => 1,
+                _ => 1 + rng.below(12),
+            };
+            let mut fs: Vec<String> = vec![];
+            let mut prev: Option<&str> = None;
+            for _ in 0..nf {
+                let (name, nameless) = match prev {
+                    Some(p) if !p.starts_with(':') && rng.chance(1, 4) => (p, true),
+                    _ => (*rng.pick(&pool), false),
+                };
+                let v = enc_value(rng, name, cur_max);
+                let sens = !name.starts_with(':') && rng.chance(1, 8);
+                let fl = match (sens, nameless) {
+                    (false, false) => "-",
+                    (true, false) => "s",
+                    (false, true) => "n",
+                    (true, true) => "sn",
+                };
+                fs.push(format!("{}:{}:{}", hex(name.as_bytes()), hex(&v), fl));
+                prev = Some(name);
+            }
+            writeln!(out, "enc_block {}", if fs.is_empty() { "-".to_string() } else { fs.join(",") }).unwrap();
         }
     }
 }
